@@ -246,7 +246,9 @@ func execC16(x *Ctx, sc *wire.Scenario) *wire.Result {
 			fmt.Sprintf("the last kill removed %q; yank turned %q into %q (inserted %q)", lastR, y0.Line, y1.Line, ins))
 	}
 	if len(xx.Kills) == 1 && xx.Yank == xx.Kills[0]+1 {
-		viAtEnd := xx.Vi && b0Single.Pos >= len([]rune(b0Single.Line))-1
+		// vi: when the deletion reaches the end of the line the cursor steps back onto the
+		// last character, so put-before no longer inserts "at the same point" (as in vi itself)
+		viAtEnd := xx.Vi && (b0Single.Pos >= len([]rune(b0Single.Line))-1 || b1Last.Pos != b0Single.Pos)
 		if !viAtEnd && y1.Line != b0Single.Line {
 			return violation(res, "MISMATCH", "C16.kill-then-yank-restores", "kill-yank-not-identity:"+sc.Script[xx.Kills[0]].Cmd,
 				fmt.Sprintf("%s then yank at the same point: %q (cursor %d) -> %q -> %q", sc.Script[xx.Kills[0]].Cmd, b0Single.Line, b0Single.Pos, b1Last.Line, y1.Line))
